@@ -19,13 +19,13 @@ CLAIMED = {
               "(IEEE-754 single); every WDT chunk record (MPHD both flavours, MVER, MODF) and WDL record (Vec3d, BoundingBox, "
               "ModelPlacement, M2Placement, M2VisibilityInfo, HolesData) satisfies write(read(b)) == b for ALL byte contents, consumes "
               "and produces exactly the documented size, and size() equals the bytes written; the MWMO emission rule is stable under "
-              "write->read->write for every (version, flags, chunk presence). Thorough adds the 64x64 MAIN/MAID grids (entry at a "
-              "symbolic position survives, nothing appears elsewhere, size() == bytes written for 1/2/8 MAID sections), MWMO names, "
+              "write->read->write for every (version, flags, chunk presence). Thorough adds MAID size() == sections*64*64*4, "
               "the 545-value MARE tile and WDL chunk framing."),
         design_ref="DESIGN.md section 4, C18",
         note=("Trusted: Kani/CBMC float model for +,-,*,/ and casts (bit-precise; counterexample replayed natively). Outside: the WDL file "
               "writer/parser as a whole incl. the MAOF offset table (walks 4096 slots through HashMap lookups - out of reach), whole-file "
-              "WDT write->read, version conversion of whole maps."),
+              "WDT write->read and the 64x64 MAIN/MAID grids (nested-Vec loops do not finish in 40 min), MWMO names, version conversion of "
+              "whole maps."),
     ),
 }
 
